@@ -7,7 +7,7 @@ static uint64_t *rp_vals; static int rp_cnt, rp_pos;
 void replay_set(uint64_t *v, int n) { rp_vals = v; rp_cnt = n; rp_pos = 0; }
 uint64_t replay_next(void) { return rp_pos < rp_cnt ? rp_vals[rp_pos++] : 0; }
 void *verif_poison_ptr(void) {
-        void *p = mmap(0, 4096, PROT_NONE, MAP_PRIVATE | MAP_ANONYMOUS, -1, 0);
+        void *p = mmap(0, 1 << 24, PROT_NONE, MAP_PRIVATE | MAP_ANONYMOUS | MAP_NORESERVE, -1, 0);
         return p;
 }
 void *verif_poison_obj(size_t n) { return mmap(0, (n + 4095) & ~4095ul, PROT_NONE, MAP_PRIVATE | MAP_ANONYMOUS, -1, 0); }
